@@ -2,6 +2,7 @@ import Driver.Util
 import Driver.Rid
 import Driver.Cache
 import Driver.Bytes
+import Driver.Watch
 /-!
 # amdrv — the model driver
 
@@ -14,6 +15,7 @@ structure Engines where
   rid : Driver.Rid.St := {}
   cache : Driver.Cache.St := {}
   bytes : Driver.Bytes.St := {}
+  watch : Driver.Watch.St := {}
 
 def dispatch (e : Engines) (ws : List String) : Engines × String :=
   match ws with
@@ -24,6 +26,8 @@ def dispatch (e : Engines) (ws : List String) : Engines × String :=
     else if w == "conc.race" then (e, "one-handle")   -- C01_unique_handle / C01_one_winner: every interleaving
     else if w == "conc.probe" then (e, "stable")      -- C01_presence_monotone
     else if w.startsWith "by." then let (s, o) := Driver.Bytes.step e.bytes ws; ({ e with bytes := s }, o)
+    else if w.startsWith "watch." then
+      let (s, o) := Driver.Watch.step e.watch ws; ({ e with watch := s }, o)
     else
       let (s, o) := Driver.Cache.step e.cache ws; ({ e with cache := s }, o)
 
